@@ -16,6 +16,7 @@ import (
 	"github.com/cockroachdb/pebble/vfs"
 	"github.com/ethereum/go-ethereum/p2p/enode"
 	"github.com/zen-eth/shisui/storage"
+	"github.com/zen-eth/shisui/history"
 	spebble "github.com/zen-eth/shisui/storage/pebble"
 )
 
@@ -162,6 +163,33 @@ func storeHistory(o *Out, r *rand.Rand, h, nPuts int, thorough bool) {
 	if err != nil {
 		panic(err)
 	}
+	// every other history goes through the history network's hybrid store, which routes by the content key's type
+	// byte: everything except the ephemeral offer type must reach the radius store unchanged
+	hybrid := h%2 == 1
+	wrap := func(inner storage.ContentStorage) storage.ContentStorage {
+		if !hybrid {
+			return inner
+		}
+		edb, err := pebble.Open("", &pebble.Options{FS: vfs.NewMem()})
+		if err != nil {
+			panic(err)
+		}
+		hs, err := history.NewHistoryStorage(inner, history.NewEphemeralStorage(cfg, edb))
+		if err != nil {
+			panic(err)
+		}
+		return hs
+	}
+	st = wrap(st)
+	contentKey := func() []byte {
+		if !hybrid {
+			return nil
+		}
+		k := make([]byte, 1+r.Intn(33))
+		r.Read(k)
+		k[0] = []byte{0, 1, 2, 3, 4, 6, 7, 255}[r.Intn(8)] // every type byte except the ephemeral offer type (5)
+		return k
+	}
 	o.Case(fmt.Sprintf("open cap=%d node=%s", capB, hex.EncodeToString(node[:])), "ok "+observe(db).snap(st))
 	allSmall := h%3 != 2
 	small := allSmall
@@ -221,7 +249,7 @@ func storeHistory(o *Out, r *rand.Rand, h, nPuts int, thorough bool) {
 		}
 		seed := r.Intn(1000)
 		before := observe(db)
-		err := st.Put(nil, id, genBytes(n, seed))
+		err := st.Put(contentKey(), id, genBytes(n, seed))
 		after := observe(db)
 		res := "ok"
 		if errors.Is(err, storage.ErrInsufficientRadius) {
@@ -259,7 +287,7 @@ func storeHistory(o *Out, r *rand.Rand, h, nPuts int, thorough bool) {
 				gid = append([]byte{}, gid...)
 				gid[r.Intn(32)] ^= 1 << uint(r.Intn(8))
 			}
-			v, err := st.Get(nil, gid)
+			v, err := st.Get(contentKey(), gid)
 			if err != nil {
 				o.Case("get id="+hex.EncodeToString(gid), "notfound")
 			} else {
@@ -274,7 +302,7 @@ func storeHistory(o *Out, r *rand.Rand, h, nPuts int, thorough bool) {
 			if err != nil {
 				o.Case("reopen", "err")
 			} else {
-				st = st2
+				st = wrap(st2)
 				o.Case("reopen", "ok "+observe(db).snap(st))
 			}
 		}
